@@ -131,6 +131,18 @@ func c07Scenarios(tier string) []*Scenario {
 			w.CreatePod(z)
 			return []Thread{{"sched-x", schedOps(w, x.Key(), 1)}, {"sched-y", schedOps(w, y.Key(), 1)}, {"sched-z", schedOps(w, z.Key(), 1)}}
 		}))
+		out = append(out, mk(fmt.Sprintf("size%d/pods-with-release-policy-annotations", size), func(w *world.World) []Thread {
+			// pool pods that also carry a release-policy annotation (a named pool means "never", whatever that annotation says: a
+			// documented value, an unknown one, one in another spelling)
+			setup(w)
+			w.SetPoolObj("pl", size)
+			x, y, z := poolPod("d", 0), poolPod("e", 0), poolPod("e", 1)
+			x.Policy, y.Policy, z.Policy = "immutable", "delete", "Never"
+			w.CreatePod(x)
+			w.CreatePod(y)
+			w.CreatePod(z)
+			return []Thread{{"sched-x", schedOps(w, x.Key(), 1)}, {"sched-y", schedOps(w, y.Key(), 1)}, {"sched-z", schedOps(w, z.Key(), 1)}}
+		}))
 		out = append(out, mk(fmt.Sprintf("size%d/pool-created-with-preallocation-during-run", size), func(w *world.World) []Thread {
 			setup(w)
 			x, y := poolPod("d", 0), poolPod("e", 0)
